@@ -67,11 +67,10 @@ class Permission:
         self.writable = writable
 
     def is_parent(self, other):
-        try:
-            other.relative_to(self.path)
-            return True
-        except ValueError:
-            return False
+        # (parts are compared: `relative_to` takes time quadratic in count
+        # of parts, which is up to peer)
+        parts = self.path.parts
+        return other.parts[: len(parts)] == parts
 
     def __repr__(self):
         return f"{self.__class__.__name__}({self.path!r}, " f"readable={self.readable!r}, writable={self.writable!r})"
@@ -157,7 +156,7 @@ class User:
         parents = filter(lambda p: p.is_parent(path), self.permissions)
         perm = min(
             parents,
-            key=lambda p: len(path.relative_to(p.path).parts),
+            key=lambda p: len(path.parts) - len(p.path.parts),
             default=Permission(),
         )
         return perm
@@ -1111,16 +1110,22 @@ class Server:
         virtual_path = pathlib.PurePosixPath(path)
         if not virtual_path.is_absolute():
             virtual_path = connection.current_directory / virtual_path
-        resolved_virtual_path = pathlib.PurePosixPath("/")
+        # one path object from all parts: building it part by part takes
+        # time quadratic in count of parts, which peer chooses
+        parts = []
         for part in virtual_path.parts[1:]:
-            if part == "..":
-                resolved_virtual_path = resolved_virtual_path.parent
-            else:
-                resolved_virtual_path /= part
+            if part != "..":
+                parts.append(part)
+            elif parts:
+                parts.pop()
+        resolved_virtual_path = pathlib.PurePosixPath("/", *parts)
         base_path = connection.user.base_path
-        real_path = base_path / str(resolved_virtual_path.relative_to("/"))
-        # replace with `is_relative_to` check after 3.9+ requirements lands
-        if not real_path.is_relative_to(base_path) or ".." in real_path.relative_to(base_path).parts:
+        real_path = base_path / str(pathlib.PurePosixPath(*parts))
+        # parts are compared: `is_relative_to` and `relative_to` walk all
+        # parents of path, quadratic again
+        base_parts = base_path.parts
+        real_parts = real_path.parts
+        if real_parts[: len(base_parts)] != base_parts or ".." in real_parts[len(base_parts) :]:
             real_path = base_path
             resolved_virtual_path = pathlib.PurePosixPath("/")
         return real_path, resolved_virtual_path
